@@ -47,6 +47,7 @@ pub struct TransRec {
     pub new: String,
     pub pure_write: bool,
     pub epoch: u32,
+    pub now_us: i64,
 }
 
 #[derive(Clone, Debug, Serialize, Deserialize)]
